@@ -323,6 +323,20 @@ func runCoreScripted(seed uint64, n int, out *Out) {
 			c.endBlock()
 			c.endBlock()
 		},
+		// 8: c02_counterexample_loss_exceeds_deposit — history 0 continued: outcome 2 is declared; participation 4
+		//    (deposit 2) has lost 3 and the order-book end-blocker halts on its negative payout
+		func(h int) {
+			c := newCoreScript(out, h, 2, 0, 2, 1, 0, 1000, 100)
+			m := c.market(2)
+			for i, l := range []int64{5, 2, 2, 2, 2, 1000} {
+				c.deposit(m, 1+i%5, l)
+			}
+			c.wager(m, 6, 0, "10", 22)
+			c.wager(m, 7, 1, "2", 12)
+			c.endBlock()
+			c.resolve(m, 5, 1)
+			c.endBlock()
+		},
 	}
 	for h, f := range scripts {
 		if skipHist(h) {
